@@ -191,6 +191,8 @@ PROBES = {
     # per-file analyzer state leaked from file to file
     "probe_alias.py": "import re as regex\n\n\ndef scan(lines):\n    for line in lines:\n        regex.search('x+', line)\n",
     "probe_regex.py": "import regex\n\n\ndef scan(lines):\n    for line in lines:\n        regex.search('x+', line)\n",
+    "probe_from_re.py": "from re import search\n\n\ndef scan(lines):\n    for line in lines:\n        search('x+', line)\n",
+    "probe_local_search.py": "def search(pattern, text):\n    return pattern in text\n\n\ndef scan(lines):\n    for line in lines:\n        search('x', line)\n",
     "probe_list.py": "def collect(items):\n    result = []\n    for item in items:\n        result += [item]\n    return result\n",
     "probe_str.py": "def build(items):\n    result = \"\"\n    for item in items:\n        result += str(item)\n    return result\n",
     "probe_logger.py": "import logging\n\nprint = logging.getLogger(__name__).info\n\n\ndef show(value):\n    print(value)\n",
